@@ -112,6 +112,23 @@ def configs(t):
             app('A', 0, [prog('a', 1), prog('b', 2, required=True)], sfs)],
             triggers=[['rpc', 0, 'start_application', ['CONFIG', 'A', False]]], T=7,
             mute=[[0, 'A:b', 'start'], [1, 'A:b', 'start']], behaviours=['run', 'stopped'], cost=4))
+    # a required program that fits nowhere (no resource: its only permitted instance is already loaded): same strategies
+    only0 = '10.0.0.1:25000'
+    Bld = app('B', 0, [prog('d', 0, load=10)])
+    for sfs in ('STOP', 'ABORT'):
+        out.append(base(f'start_application-no-resource-last-{sfs}', [
+            app('A', 0, [prog('a', 1), prog('b', 2, required=True, load=100, identifiers=only0)], sfs), Bld],
+            setup=[['ustart', 0, 'B:d']],
+            triggers=[['rpc', 0, 'start_application', ['CONFIG', 'A', False]]], T=4, behaviours=['run', 'stopped']))
+        out.append(base(f'start_application-no-resource-group-{sfs}', [
+            app('A', 0, [prog('a', 1, required=True, load=100, identifiers=only0), prog('b', 1), prog('c', 2)], sfs), Bld],
+            setup=[['ustart', 0, 'B:d']],
+            triggers=[['rpc', 0, 'start_application', ['CONFIG', 'A', False]]], T=4, behaviours=['run', 'stopped']))
+    # an optional program of the first group fits nowhere: the rest of the group, then the next group, in that order
+    out.append(base('start_application-no-resource-optional', [
+        app('A', 0, [prog('a', 1, load=100, identifiers=only0), prog('b', 1), prog('c', 2)], 'CONTINUE'), Bld],
+        setup=[['ustart', 0, 'B:d']],
+        triggers=[['rpc', 0, 'start_application', ['CONFIG', 'A', False]]], T=4, behaviours=['run', 'stopped']))
     # the host of a required program is lost after the request and before any acknowledgement
     for sfs in ('ABORT', 'STOP'):
         out.append(base(f'host-lost-before-ack-{sfs}', [
